@@ -23,7 +23,8 @@ def observe(texts, ignore=(), ser=False, module_name="mod"):
         m = instantiator.instantiate_namespace(m)
         inst = proj.proj_minst(m)
     except proj.ProjectionError:
-        raise
+        # an instantiated tree of impossible shape: C02 reports it, the generator checks do not judge the module
+        return {"outcome": "front-exc:impossible-instantiated-tree"}
     except Exception as e:  # noqa: BLE001
         return {"outcome": "front-exc:" + type(e).__name__}
     r = gen.matlab_files(texts, module_name=module_name, ignore=ignore, ser=ser)
